@@ -35,7 +35,7 @@ PROPS = {
     "C06": dict(quick=["book1", "fee", "frac", "marker", "mig"],
                 thorough=["book1", "fee", "feebig", "frac", "marker", "mig", "book2"],
                 drive=[("mixed", 2, 25, 250), ("reverse", 0, 15, 250), ("migrate", 0, 10, 250)]),
-    "C07": dict(quick=["admit", "feearith"], thorough=["admit", "feearith", "book1", "fee"], drive=[("create", 2, 30, 250), ("fee", 0, 10, 250)]),
+    "C07": dict(quick=["admit", "feearith", "book2"], thorough=["admit", "feearith", "book2", "book1", "fee"], drive=[("create", 2, 30, 250), ("fee", 0, 10, 250)]),
     "C08": dict(quick=["book1", "marker", "admit"], thorough=["book1", "marker", "admit", "frac"], drive=[("conv", 2, 35, 250)]),
     "C09": dict(quick=["fee", "feebig", "feearith", "frac"], thorough=["fee", "feebig", "feearith", "book1", "frac", "mig"],
                 drive=[("fee", 2, 30, 250), ("match", 0, 10, 250)]),
@@ -48,7 +48,7 @@ PROPS = {
     "C14": dict(quick=["mig"], thorough=["mig", "migarb"], drive=[("migrate", 2, 35, 250)]),
     "C15": dict(quick=["mig", "migarb"], thorough=["mig", "migarb"], drive=[("migrate", 2, 35, 250)]),
     "C16": dict(quick=["book1", "book2", "mig", "inst"], thorough=["book1", "book2", "mig", "inst", "frac"], drive=[("mixed", 2, 25, 250), ("migrate", 0, 10, 250)]),
-    "C17": dict(quick=["book1", "fee", "marker", "mig", "frac"],
+    "C17": dict(quick=["book1", "fee", "marker", "mig", "frac", "admit"],
                 thorough=["book1", "fee", "feearith", "marker", "auth", "mig", "frac"],
                 drive=[("mixed", 2, 25, 250), ("match", 0, 10, 250), ("reverse", 0, 10, 250)]),
 }
